@@ -80,8 +80,16 @@ Max(a, b) == IF a > b THEN a ELSE b
 (*   D        number of devices (pmap replicas / num_devices_for_pjit)     *)
 (*   mode     "pmap" | "shard"                                             *)
 (*   crank    compression_rank (0 = full preconditioners)                  *)
-(*   unbatch  "squeeze": unbatch as written (jnp.squeeze without axis);    *)
-(*            "exact": an unbatch that only removes the two batch axes     *)
+(*   unbatch  which unbatch() is modelled:                                 *)
+(*            "exact":   only the two batching axes are removed (the code  *)
+(*                       since /repo commit "fix: unbatch only drops the   *)
+(*                       two batching axes");                              *)
+(*            "squeeze": jnp.squeeze without an axis, as the function was  *)
+(*                       written before: every unit dimension disappears,  *)
+(*                       so 1x1 statistics lose their matrix axes and      *)
+(*                       Assign cannot slice them (ElemShapeKept fails     *)
+(*                       when EVERY statistic is 1x1).  The harness probes *)
+(*                       the real function to see which one it is.         *)
 (***************************************************************************)
 CfgOK(c) ==
   /\ c.D \in Nat \ {0} /\ c.B \in Nat \ {0} /\ c.crank \in Nat
